@@ -101,6 +101,9 @@ def build_mcmc(arg):
         jacobians_list.append("tree")
     if arg.coalescent in COALESCENT_PIECEWISE:
         jacobians_list.remove("coalescent.theta")
+        if arg.coalescent_non_centered:
+            # log theta is the cumulative sum of the non-centred parameters
+            jacobians_list.remove("coalescent.theta.log")
 
     joint_jacobian = {
         "id": "joint.jacobian",
